@@ -209,6 +209,17 @@ impl HostTimer {
     pub(crate) fn since_epoch(&self) -> Duration {
         self.since_epoch + self.sim_elapsed()
     }
+
+    /// [`Self::since_epoch`] as of the start of the current tick.
+    ///
+    /// Unlike `since_epoch` this does not read the tokio clock, so it can be
+    /// called from outside the host's runtime. Outside a runtime
+    /// `Instant::now()` is the wall clock, and `since_epoch` would then add a
+    /// wall-clock dependent amount to the simulated time.
+    #[cfg(feature = "unstable-fs")]
+    pub(crate) fn since_epoch_at_tick_start(&self) -> Duration {
+        self.since_epoch + self.start_offset + self.elapsed
+    }
 }
 
 /// Simulated UDP host software.
